@@ -32,7 +32,7 @@ PROP_STREAMS = {
     "C07": [("e1", 1.0)],
     "C12": [("e1", 1.0)],
     "C13": [("e3", 0.55), ("e3m", 0.45)],
-    "C14": [("e1", 1.0)],
+    "C14": [("e1", 0.85), ("e3", 0.15)],
     "C15": [("e1", 0.7), ("e3", 0.15), ("e3m", 0.15)],
     "C16": [("e4", 1.0)],
     "C17": [("e4", 1.0)],
